@@ -8,13 +8,36 @@ From osaca/db_interface.py:
   _get_asmbench_output    block length 4, line offsets of blank / latency / throughput line, presence of
                           the length guard, token index of the measurement
   _create_db_operand_*    the complete if/elif decision tables (tests and dict literals) as data
-Shapes are located structurally; an unexpected shape raises TranslateError (= broken tie).
+
+Read by VALUE and ROLE (helpers: astutil_G1.py), not by spelling:
+  * every number / string is a constant *expression*: literal in any spelling (`95e-2`, `10 + 1`, adjacent or
+    concatenated string literals), a local, class or module constant under any name, also imported;
+  * locals are found by what they are bound to (`instruction` = `<line>.split(c)[0]`, the key = `c.join(
+    <instruction>.split(c)[:k])`, the entry name = `<data>[i + k].strip()`), parameters by position;
+  * comparisons may be mirrored (`m <= floor(m) * c`), products commuted (`c * floor(m)`), the two latency
+    tests swapped, the chained `a <= m <= b` written `a <= m and m <= b`, `1 / x` written `1.0 / x`;
+  * `if c: ... break` + rest-of-body instead of `if/else`; an if/elif chain written as consecutive
+    `if ...: return` guard clauses; a returned dict bound to a local first; `"r" in operand` instead of
+    `True if "r" in operand else False`; `f"{operand}mm"` / `"%smm" % operand` instead of `operand + "mm"`.
+Kept as written because it is observable: the ORDER of the decision chains and of the keys of the dict literals
+(the dicts are dumped in insertion order).
+Shapes are located structurally; an unexpected shape raises TranslateError (= failed generator).
+No module of the analysed tree is imported or executed.
 """
 import ast
+import os
+import sys
 
-from translate import TranslateError, generator, parse, find_func, txt, HEADER, rat
+sys.path.insert(0, os.path.dirname(os.path.abspath(__file__)))
+import astutil_G1 as U  # noqa: E402
+
+# the plug-in and its helpers are inputs too: a change of either regenerates the file
+SELF = ["../verif-self:tools/gen/importconsts.py", "../verif-self:tools/gen/astutil_G1.py"]
+
+from translate import TranslateError, generator, txt, HEADER, rat  # noqa: E402
 
 SRC = "osaca/db_interface.py"
+MIRROR = {ast.Lt: ast.Gt, ast.Gt: ast.Lt, ast.LtE: ast.GtE, ast.GtE: ast.LtE, ast.Eq: ast.Eq, ast.NotEq: ast.NotEq}
 
 
 # --------------------------------------------------------------------------- small AST helpers
@@ -22,369 +45,626 @@ def _is_name(n, ident=None):
     return isinstance(n, ast.Name) and (ident is None or n.id == ident)
 
 
-def _const(n, typ):
-    if isinstance(n, ast.Constant) and isinstance(n.value, typ) and not (typ is int and isinstance(n.value, bool)):
-        return n.value
-    raise TranslateError("expected %s literal at line %s" % (typ.__name__, getattr(n, "lineno", "?")))
+_call_name = U.call_name
 
 
-def _float_text(n):
-    """decimal text of a float/int literal (so that 1.05 is 21/20, as written in the source)"""
-    if isinstance(n, ast.Constant) and isinstance(n.value, (int, float)) and not isinstance(n.value, bool):
-        return repr(n.value)
-    raise TranslateError("expected numeric literal at line %s" % getattr(n, "lineno", "?"))
+def _param(sc, k, what):
+    a = sc.node.args
+    names = [x.arg for x in list(a.posonlyargs) + list(a.args)]
+    if k >= len(names):
+        raise TranslateError("%s: parameter %d not found" % (what, k))
+    return names[k]
 
 
-def _call_name(n):
-    if isinstance(n, ast.Call):
-        f = n.func
-        if isinstance(f, ast.Attribute):
-            return f.attr
-        if isinstance(f, ast.Name):
-            return f.id
+def _nat(sc, n, what):
+    v = sc.ev_int(n, what)
+    if v < 0:
+        raise TranslateError("%s: negative constant %d" % (what, v))
+    return v
+
+
+def _char(sc, n, what):
+    v = sc.ev_str(n, what)
+    if len(v) != 1:
+        raise TranslateError("%s: separator %r is not one character" % (what, v))
+    return v
+
+
+def _eq_const(sc, test, name):
+    """`name == <const>` / `<const> == name` -> const value; else None"""
+    if isinstance(test, ast.Compare) and len(test.ops) == 1 and isinstance(test.ops[0], ast.Eq):
+        l, r = test.left, test.comparators[0]
+        if _is_name(r, name) and not _is_name(l, name):
+            l, r = r, l
+        if _is_name(l, name):
+            ok, v = sc.try_ev(r)
+            if ok:
+                return v
     return None
 
 
-def _mul_const(n, fname):
-    """`math.<fname>(x) * C` or `<name> * C` -> C (decimal text)"""
+def _product(sc, n, is_var, what):
+    """`<var> * C` / `C * <var>` -> decimal text of C, where is_var(operand) recognises the variable part"""
+    n = sc.deref(n)
     if not (isinstance(n, ast.BinOp) and isinstance(n.op, ast.Mult)):
-        raise TranslateError("expected a product at line %s" % getattr(n, "lineno", "?"))
+        raise TranslateError("%s: expected a product at line %s" % (what, getattr(n, "lineno", "?")))
     l, r = n.left, n.right
-    if fname is not None:
-        if _call_name(l) != fname:
-            raise TranslateError("expected %s(...) * const at line %s" % (fname, n.lineno))
-    elif not _is_name(l):
-        raise TranslateError("expected name * const at line %s" % n.lineno)
-    return _float_text(r)
+    if is_var(sc.deref(r)) and not is_var(sc.deref(l)):
+        l, r = r, l
+    if not is_var(sc.deref(l)):
+        raise TranslateError("%s: unexpected factor in the product at line %s" % (what, n.lineno))
+    return U.dec_text(sc.ev_num(r, what))
+
+
+def _m_compare(c, m):
+    """single comparison with the name `m` on one side -> (other side, op type normalised to `other OP m`)"""
+    if not (isinstance(c, ast.Compare) and len(c.ops) == 1 and type(c.ops[0]) in MIRROR):
+        return None
+    l, r, op = c.left, c.comparators[0], type(c.ops[0])
+    if _is_name(l, m) and not _is_name(r, m):
+        l, r, op = r, l, MIRROR[op]
+    if not _is_name(r, m):
+        return None
+    return l, op
+
+
+_disjuncts = U.disjuncts
 
 
 # --------------------------------------------------------------------------- _validate_measurement
-def _validate(tree):
-    fn = find_func(tree, "_validate_measurement")
+def _validate(mod):
+    W = "_validate_measurement"
+    sc = mod.fn(W)
+    fn = sc.node
+    M, MODE = _param(sc, 0, W), _param(sc, 1, W)
     branches = {}
     for node in ast.walk(fn):
-        if isinstance(node, ast.If) and isinstance(node.test, ast.Compare) and len(node.test.ops) == 1 \
-                and isinstance(node.test.ops[0], ast.Eq) and isinstance(node.test.comparators[0], ast.Constant) \
-                and node.test.comparators[0].value in ("lt", "tp"):
-            branches[node.test.comparators[0].value] = node
+        if isinstance(node, ast.If):
+            v = _eq_const(sc, node.test, MODE)
+            if v in ("lt", "tp"):
+                if v in branches:
+                    raise TranslateError("%s: two branches for mode %r" % (W, v))
+                branches[v] = node
     if set(branches) != {"lt", "tp"}:
-        raise TranslateError("_validate_measurement: mode branches 'lt'/'tp' not found")
+        raise TranslateError("%s: mode branches 'lt'/'tp' not found" % W)
     # ---- latency branch:  if floor(m) * A >= m or ceil(m) * B <= m: return float(round(m))
     lt = branches["lt"]
     inner = [n for n in lt.body if isinstance(n, ast.If)]
-    if len(inner) != 1 or not isinstance(inner[0].test, ast.BoolOp) or not isinstance(inner[0].test.op, ast.Or) \
-            or len(inner[0].test.values) != 2:
-        raise TranslateError("_validate_measurement: latency test is not `A or B`")
-    c1, c2 = inner[0].test.values
-    for c in (c1, c2):
-        if not (isinstance(c, ast.Compare) and len(c.ops) == 1 and _is_name(c.comparators[0])):
-            raise TranslateError("_validate_measurement: latency comparison shape")
-    if not isinstance(c1.ops[0], ast.GtE) or not isinstance(c2.ops[0], ast.LtE):
-        raise TranslateError("_validate_measurement: latency comparisons are not `>=` / `<=`")
-    lt_hi = _mul_const(c1.left, "floor")
-    lt_lo = _mul_const(c2.left, "ceil")
+    if len(inner) != 1 or inner[0].orelse:
+        raise TranslateError("%s: latency test is not `A or B`" % W)
+    ds = _disjuncts(inner[0].test)
+    if len(ds) != 2:
+        raise TranslateError("%s: latency test is not `A or B`" % W)
+    found = {}
+    for c in ds:
+        mc = _m_compare(c, M)
+        if mc is None:
+            raise TranslateError("%s: latency comparison shape" % W)
+        prod, op = mc
+        p = sc.deref(prod)
+        fname = None
+        if isinstance(p, ast.BinOp) and isinstance(p.op, ast.Mult):
+            for side in (p.left, p.right):
+                s = sc.deref(side)
+                if _call_name(s) in ("floor", "ceil") and len(s.args) == 1 and _is_name(s.args[0], M):
+                    fname = _call_name(s)
+        if fname is None or fname in found:
+            raise TranslateError("%s: latency comparison is not floor(m) * c / ceil(m) * c against m" % W)
+        want = ast.GtE if fname == "floor" else ast.LtE
+        if op is not want:
+            raise TranslateError("%s: latency comparisons are not `>=` / `<=`" % W)
+        found[fname] = _product(sc, p, lambda x, f=fname: _call_name(x) == f, W)
+    lt_hi, lt_lo = found["floor"], found["ceil"]
     ret = [n for n in inner[0].body if isinstance(n, ast.Return)]
-    if len(ret) != 1 or _call_name(ret[0].value) != "float" or _call_name(ret[0].value.args[0]) != "round" \
-            or len(ret[0].value.args[0].args) != 1:
-        raise TranslateError("_validate_measurement: latency result is not float(round(m))")
+    rv = sc.deref(ret[0].value) if len(ret) == 1 and ret[0].value is not None else None
+    rr = sc.deref(rv.args[0]) if rv is not None and _call_name(rv) == "float" and len(rv.args) == 1 else None
+    if rr is None or _call_name(rr) != "round" or len(rr.args) != 1 or rr.keywords or not _is_name(rr.args[0], M):
+        raise TranslateError("%s: latency result is not float(round(m))" % W)
     # ---- throughput branch
     tp = branches["tp"]
-    comp = [n for n in ast.walk(tp) if isinstance(n, ast.ListComp)]
-    if len(comp) != 1:
-        raise TranslateError("_validate_measurement: reciprocal list comprehension not found")
-    lc = comp[0]
-    if not (isinstance(lc.elt, ast.BinOp) and isinstance(lc.elt.op, ast.Div) and _const(lc.elt.left, int) == 1
-            and _is_name(lc.elt.right) and len(lc.generators) == 1 and not lc.generators[0].ifs):
-        raise TranslateError("_validate_measurement: reciprocals are not `1 / x for x in range(..)`")
-    rg = lc.generators[0].iter
-    if _call_name(rg) != "range" or len(rg.args) != 2:
-        raise TranslateError("_validate_measurement: range(a, b) expected")
-    r_from, r_to = _const(rg.args[0], int), _const(rg.args[1], int)
+    fors = [n for n in tp.body if isinstance(n, ast.For) and any(isinstance(x, ast.Return) for x in ast.walk(n))]
+    if len(fors) != 1 or not _is_name(fors[0].target):
+        raise TranslateError("%s: for loop over reciprocals not found" % W)
+    loop = fors[0]
+    R = loop.target.id
+    lc = U.comp_view(loop.iter, sc)
+    if lc is None:
+        raise TranslateError("%s: reciprocal list comprehension not found" % W)
+    one = sc.try_ev(lc.elt.left) if isinstance(lc.elt, ast.BinOp) and isinstance(lc.elt.op, ast.Div) else (False, None)
+    if not (one[0] and not isinstance(one[1], bool) and isinstance(one[1], (int, float)) and one[1] == 1
+            and _is_name(lc.target) and _is_name(lc.elt.right, lc.target.id) and not lc.ifs):
+        raise TranslateError("%s: reciprocals are not `1 / x for x in range(..)`" % W)
+    rg = sc.deref(lc.iter)
+    if _call_name(rg) != "range" or not isinstance(rg.func, ast.Name) or len(rg.args) != 2 or rg.keywords:
+        raise TranslateError("%s: range(a, b) expected" % W)
+    r_from, r_to = sc.ev_int(rg.args[0], W + ": range"), sc.ev_int(rg.args[1], W + ": range")
     if r_from < 1:
-        raise TranslateError("_validate_measurement: range starts below 1 (division by zero)")
-    fors = [n for n in tp.body if isinstance(n, ast.For)]
-    if len(fors) != 1:
-        raise TranslateError("_validate_measurement: for loop over reciprocals not found")
-    ifs = [n for n in fors[0].body if isinstance(n, ast.If)]
-    if len(ifs) != 1 or not isinstance(ifs[0].test, ast.Compare) or len(ifs[0].test.ops) != 2 \
-            or not all(isinstance(o, ast.LtE) for o in ifs[0].test.ops) or not _is_name(ifs[0].test.comparators[0]):
-        raise TranslateError("_validate_measurement: throughput test is not `reci*a <= m <= reci*b`")
-    tp_lo = _mul_const(ifs[0].test.left, None)
-    tp_hi = _mul_const(ifs[0].test.comparators[1], None)
+        raise TranslateError("%s: range starts below 1 (division by zero)" % W)
+    ifs = [n for n in loop.body if isinstance(n, ast.If)]
+    if len(ifs) != 1 or ifs[0].orelse:
+        raise TranslateError("%s: throughput test is not `reci*a <= m <= reci*b`" % W)
+    bounds = {}
+    conj = U.atoms(ifs[0].test, True)
+    for a, pol in conj:
+        mc = _m_compare(a, M) if pol else None
+        if mc is None or mc[1] not in (ast.LtE, ast.GtE):
+            raise TranslateError("%s: throughput test is not `reci*a <= m <= reci*b`" % W)
+        which = "lo" if mc[1] is ast.LtE else "hi"
+        if which in bounds:
+            raise TranslateError("%s: throughput test is not `reci*a <= m <= reci*b`" % W)
+        bounds[which] = _product(sc, mc[0], lambda x: _is_name(x, R), W)
+    if set(bounds) != {"lo", "hi"}:
+        raise TranslateError("%s: throughput test is not `reci*a <= m <= reci*b`" % W)
     ret = [n for n in ifs[0].body if isinstance(n, ast.Return)]
-    if len(ret) != 1 or _call_name(ret[0].value) != "round" or len(ret[0].value.args) != 2:
-        raise TranslateError("_validate_measurement: throughput result is not round(reci, d)")
-    if not (_is_name(ret[0].value.args[0]) and _is_name(fors[0].target, ret[0].value.args[0].id)
-            and _is_name(ifs[0].test.left.left, fors[0].target.id) and _is_name(ifs[0].test.comparators[1].left, fors[0].target.id)
-            and (fors[0].iter is lc or (_is_name(fors[0].iter) and any(
-                isinstance(s, ast.Assign) and _is_name(s.targets[0], fors[0].iter.id) and s.value is lc for s in tp.body)))):
-        raise TranslateError("_validate_measurement: the loop variable is not what is tested and rounded")
-    digits = _const(ret[0].value.args[1], int)
-    return dict(lt_hi=lt_hi, lt_lo=lt_lo, tp_lo=tp_lo, tp_hi=tp_hi, r_from=r_from, r_to=r_to, digits=digits)
+    rv = sc.deref(ret[0].value) if len(ret) == 1 and ret[0].value is not None else None
+    if rv is None or _call_name(rv) != "round" or not isinstance(rv.func, ast.Name) or not rv.args \
+            or not _is_name(rv.args[0], R):
+        raise TranslateError("%s: throughput result is not round(reci, d)" % W)
+    if len(rv.args) == 2 and not rv.keywords:
+        dn = rv.args[1]
+    elif len(rv.args) == 1 and len(rv.keywords) == 1 and rv.keywords[0].arg == "ndigits":
+        dn = rv.keywords[0].value
+    else:
+        raise TranslateError("%s: throughput result is not round(reci, d)" % W)
+    digits = _nat(sc, dn, W + ": digits")
+    return dict(lt_hi=lt_hi, lt_lo=lt_lo, tp_lo=bounds["lo"], tp_hi=bounds["hi"], r_from=r_from, r_to=r_to,
+                digits=digits)
+
+
+# --------------------------------------------------------------------------- measurement token
+def _measurement(sc, call, is_line, what):
+    """`_validate_measurement(float(<line>.split()[k]), mode)` -> (line expr, k, mode)"""
+    if len(call.args) != 2 or call.keywords:
+        raise TranslateError("%s: unexpected _validate_measurement call" % what)
+    tok = sc.deref(call.args[0])
+    sub = sc.deref(tok.args[0]) if _call_name(tok) == "float" and len(tok.args) == 1 else None
+    sp = sc.deref(sub.value) if isinstance(sub, ast.Subscript) else None
+    if not (sp is not None and _call_name(sp) == "split" and not sp.args and not sp.keywords
+            and isinstance(sp.func, ast.Attribute)):
+        raise TranslateError("%s: measurement is not float(line.split()[k])" % what)
+    line = is_line(sp.func.value)
+    if line is None:
+        raise TranslateError("%s: measurement is not taken from the expected line" % what)
+    return line, _nat(sc, sub.slice, what + ": token index"), sc.ev_str(call.args[1], what + ": mode")
 
 
 # --------------------------------------------------------------------------- _get_ibench_output
-def _dispatch_test(test):
-    """`"TP" in instruction`  -> (tag, suffix=False, rstrip=False)
-       `instruction[.rstrip()].endswith("-TP")` -> (tag, True, rstrip)"""
-    if isinstance(test, ast.Compare) and len(test.ops) == 1 and isinstance(test.ops[0], ast.In) \
-            and isinstance(test.left, ast.Constant) and isinstance(test.left.value, str) \
-            and _is_name(test.comparators[0], "instruction"):
-        return test.left.value, False, False
-    if _call_name(test) == "endswith" and len(test.args) == 1 and isinstance(test.args[0], ast.Constant) \
-            and isinstance(test.args[0].value, str):
-        recv = test.func.value
-        if _is_name(recv, "instruction"):
-            return test.args[0].value, True, False
-        if _call_name(recv) == "rstrip" and not recv.args and _is_name(recv.func.value, "instruction"):
-            return test.args[0].value, True, True
-    raise TranslateError("_get_ibench_output: unknown TP/LT dispatch test at line %s" % getattr(test, "lineno", "?"))
-
-
-def _ibench(tree):
-    fn = find_func(tree, "_get_ibench_output")
+def _ibench(mod):
+    W = "_get_ibench_output"
+    sc = mod.fn(W)
+    fn = sc.node
+    DATA = _param(sc, 0, W)
     loop = [n for n in fn.body if isinstance(n, ast.For)]
-    if len(loop) != 1:
-        raise TranslateError("_get_ibench_output: loop not found")
+    if len(loop) != 1 or not _is_name(loop[0].iter, DATA) or not _is_name(loop[0].target):
+        raise TranslateError("%s: loop not found" % W)
     body = loop[0].body
+    LINE = loop[0].target.id
+
     # skip test: `"<text>" in line or len(line) == 0`
     skip = None
-    if isinstance(body[0], ast.If) and isinstance(body[0].test, ast.BoolOp) and isinstance(body[0].test.op, ast.Or):
-        for v in body[0].test.values:
-            if isinstance(v, ast.Compare) and isinstance(v.ops[0], ast.In) and isinstance(v.left, ast.Constant):
-                skip = v.left.value
-        if not (len(body[0].body) == 1 and isinstance(body[0].body[0], ast.Continue)):
-            skip = None
+    if isinstance(body[0], ast.If) and len(body[0].body) == 1 and isinstance(body[0].body[0], ast.Continue) \
+            and not body[0].orelse:
+        for v in _disjuncts(body[0].test):
+            if isinstance(v, ast.Compare) and len(v.ops) == 1 and isinstance(v.ops[0], ast.In) \
+                    and _is_name(v.comparators[0], LINE):
+                ok, s = sc.try_ev(v.left)
+                if ok and isinstance(s, str):
+                    if skip is not None:
+                        raise TranslateError("%s: two skip texts" % W)
+                    skip = s
     if not isinstance(skip, str):
-        raise TranslateError("_get_ibench_output: skip test not found")
-    # instruction = line.split(":")[0];  key = "-".join(instruction.split("-")[:2])
-    colon = dash = nkey = None
+        raise TranslateError("%s: skip test not found" % W)
+
+    # instruction = line.split(":")[0]
+    def split_field(n, is_recv):
+        """`<recv>.split(c)[k]` -> (c node, k node)"""
+        n = sc.deref(n)
+        if isinstance(n, ast.Subscript) and not isinstance(n.slice, ast.Slice):
+            sp = sc.deref(n.value)
+            if _call_name(sp) == "split" and isinstance(sp.func, ast.Attribute) and len(sp.args) == 1 \
+                    and not sp.keywords and is_recv(sp.func.value):
+                return sp.args[0], n.slice
+        return None
+
+    instr = []
     for st in body:
-        if isinstance(st, ast.Assign) and _is_name(st.targets[0], "instruction"):
-            v = st.value
-            if isinstance(v, ast.Subscript) and _call_name(v.value) == "split" and _const(v.slice, int) == 0:
-                colon = _const(v.value.args[0], str)
-        if isinstance(st, ast.Assign) and _is_name(st.targets[0], "key"):
-            v = st.value
-            if _call_name(v) == "join" and isinstance(v.args[0], ast.Subscript) and isinstance(v.args[0].slice, ast.Slice):
-                sl = v.args[0].slice
-                if sl.lower is None and sl.step is None:
-                    nkey = _const(sl.upper, int)
-                dash = _const(v.func.value, str)
-                if _const(v.args[0].value.args[0], str) != dash:
-                    raise TranslateError("_get_ibench_output: key split/join separators differ")
-    if colon is None or dash is None or nkey is None or len(colon) != 1 or len(dash) != 1:
-        raise TranslateError("_get_ibench_output: instruction/key computation not found")
+        if isinstance(st, ast.Assign) and len(st.targets) == 1 and _is_name(st.targets[0]):
+            f = split_field(st.value, lambda r: _is_name(r, LINE))
+            if f is not None:
+                instr.append((st.targets[0].id, f))
+    if len(instr) != 1:
+        raise TranslateError("%s: instruction/key computation not found" % W)
+    INSTR, (cn, kn) = instr[0]
+    if _nat(sc, kn, W) != 0:
+        raise TranslateError("%s: the instruction is not field 0 of the line" % W)
+    colon = _char(sc, cn, W)
+    if sc.bind.get(INSTR) is None or len(sc.bind[INSTR]) != 1:
+        raise TranslateError("%s: %s is bound more than once" % (W, INSTR))
+
+    def is_instr(n):
+        return _is_name(n, INSTR)
+
+    # key = "-".join(instruction.split("-")[:2])
+    keys = []
+    for st in body:
+        if isinstance(st, ast.Assign) and len(st.targets) == 1 and _is_name(st.targets[0]):
+            v = sc.deref(st.value)
+            if _call_name(v) == "join" and isinstance(v.func, ast.Attribute) and len(v.args) == 1:
+                a = sc.deref(v.args[0])
+                sp = sc.deref(a.value) if isinstance(a, ast.Subscript) and isinstance(a.slice, ast.Slice) else None
+                if sp is not None and _call_name(sp) == "split" and isinstance(sp.func, ast.Attribute) \
+                        and len(sp.args) == 1 and is_instr(sp.func.value):
+                    sl = a.slice
+                    lo_ok = sl.lower is None or (sc.try_ev(sl.lower) in ((True, 0), (True, None)))
+                    st_ok = sl.step is None or (sc.try_ev(sl.step) in ((True, 1), (True, None)))
+                    if not (lo_ok and st_ok and sl.upper is not None):
+                        raise TranslateError("%s: key is not the first k fields" % W)
+                    dash = _char(sc, v.func.value, W)
+                    if _char(sc, sp.args[0], W) != dash:
+                        raise TranslateError("%s: key split/join separators differ" % W)
+                    keys.append((dash, _nat(sc, sl.upper, W)))
+    if len(keys) != 1:
+        raise TranslateError("%s: instruction/key computation not found" % W)
+    dash, nkey = keys[0]
+
     # operand separator: instruction.split("-")[1].split("_")
     under = None
     for n in ast.walk(fn):
-        if _call_name(n) == "split" and n.args and isinstance(n.func.value, ast.Subscript) \
-                and _call_name(n.func.value.value) == "split":
-            if _const(n.func.value.slice, int) != 1:
-                raise TranslateError("_get_ibench_output: operands are not field 1")
-            under = _const(n.args[0], str)
-    if under is None or len(under) != 1:
-        raise TranslateError("_get_ibench_output: operand separator not found")
+        if _call_name(n) == "split" and n.args and isinstance(n.func, ast.Attribute):
+            f = split_field(n.func.value, is_instr)
+            if f is not None:
+                if _nat(sc, f[1], W) != 1:
+                    raise TranslateError("%s: operands are not field 1" % W)
+                if _char(sc, f[0], W) != dash:
+                    raise TranslateError("%s: operands are split off with another separator than the key" % W)
+                u = _char(sc, n.args[0], W)
+                if under is not None and u != under:
+                    raise TranslateError("%s: two operand separators" % W)
+                under = u
+    if under is None:
+        raise TranslateError("%s: operand separator not found" % W)
+
     # dispatch: if <tp test>: ... elif <lt test>: ...
+    def dispatch_test(test):
+        """`"TP" in instruction`  -> (tag, suffix=False, rstrip=False)
+           `instruction[.rstrip()].endswith("-TP")` -> (tag, True, rstrip)"""
+        if isinstance(test, ast.Compare) and len(test.ops) == 1 and isinstance(test.ops[0], ast.In) \
+                and is_instr(test.comparators[0]):
+            ok, s = sc.try_ev(test.left)
+            if ok and isinstance(s, str):
+                return s, False, False
+        if _call_name(test) == "endswith" and isinstance(test.func, ast.Attribute) and len(test.args) == 1 \
+                and not test.keywords:
+            ok, s = sc.try_ev(test.args[0])
+            if ok and isinstance(s, str):
+                recv = sc.deref(test.func.value) if not is_instr(test.func.value) else test.func.value
+                if is_instr(recv):
+                    return s, True, False
+                if _call_name(recv) == "rstrip" and not recv.args and not recv.keywords \
+                        and isinstance(recv.func, ast.Attribute) and is_instr(recv.func.value):
+                    return s, True, True
+        return None
+
+    def assigned(block):
+        for s in block:
+            if isinstance(s, ast.Assign) and len(s.targets) == 1 and isinstance(s.targets[0], ast.Attribute):
+                v = sc.deref(s.value)
+                if _call_name(v) == "_validate_measurement":
+                    _, tok, mode = _measurement(sc, v, lambda r: True if _is_name(r, LINE) else None, W)
+                    return s.targets[0].attr, mode, tok
+        raise TranslateError("%s: no assignment in dispatch branch" % W)
+
     disp = None
-    for st in body:
-        if isinstance(st, ast.If) and st.orelse and len(st.orelse) == 1 and isinstance(st.orelse[0], ast.If):
-            try:
-                a = _dispatch_test(st.test)
-                b = _dispatch_test(st.orelse[0].test)
-            except TranslateError:
-                continue
-            # which attribute is assigned, with which mode
-            def assigned(block):
-                for s in block:
-                    if isinstance(s, ast.Assign) and isinstance(s.targets[0], ast.Attribute) \
-                            and _call_name(s.value) == "_validate_measurement":
-                        tok = s.value.args[0]
-                        if not (_call_name(tok) == "float" and isinstance(tok.args[0], ast.Subscript)
-                                and _call_name(tok.args[0].value) == "split" and not tok.args[0].value.args):
-                            raise TranslateError("_get_ibench_output: measurement is not float(line.split()[k])")
-                        return s.targets[0].attr, _const(s.value.args[1], str), _const(tok.args[0].slice, int)
-                raise TranslateError("_get_ibench_output: no assignment in dispatch branch")
-            a_attr, a_mode, a_tok = assigned(st.body)
-            b_attr, b_mode, b_tok = assigned(st.orelse[0].body)
-            if (a_attr, a_mode, b_attr, b_mode) != ("throughput", "tp", "latency", "lt") or a_tok != b_tok:
-                raise TranslateError("_get_ibench_output: dispatch branches do not set throughput/tp then latency/lt")
-            if st.orelse[0].orelse:
-                raise TranslateError("_get_ibench_output: unexpected else branch in dispatch")
-            if a[1:] != b[1:]:
-                raise TranslateError("_get_ibench_output: TP and LT tests have different shapes")
-            disp = dict(tp_tag=a[0], lt_tag=b[0], suffix=a[1], rstrip=a[2], tok=a_tok)
+    for i, st in enumerate(body):
+        if not isinstance(st, ast.If):
+            continue
+        a = dispatch_test(st.test)
+        if a is None:
+            continue
+        # second test: `elif`, or the next statement if the branches cannot both fire ... only elif is equivalent
+        if not (len(st.orelse) == 1 and isinstance(st.orelse[0], ast.If)):
+            raise TranslateError("%s: TP/LT dispatch is not an if/elif pair" % W)
+        b = dispatch_test(st.orelse[0].test)
+        if b is None:
+            raise TranslateError("%s: unknown TP/LT dispatch test at line %d" % (W, st.orelse[0].lineno))
+        a_attr, a_mode, a_tok = assigned(st.body)
+        b_attr, b_mode, b_tok = assigned(st.orelse[0].body)
+        if (a_attr, a_mode) == ("latency", "lt") and (b_attr, b_mode) == ("throughput", "tp"):
+            # the two tests are exclusive only if neither tag can match where the other does; keep source order
+            raise TranslateError("%s: dispatch branches are in the order LT, TP" % W)
+        if (a_attr, a_mode, b_attr, b_mode) != ("throughput", "tp", "latency", "lt") or a_tok != b_tok:
+            raise TranslateError("%s: dispatch branches do not set throughput/tp then latency/lt" % W)
+        if st.orelse[0].orelse:
+            raise TranslateError("%s: unexpected else branch in dispatch" % W)
+        if a[1:] != b[1:]:
+            raise TranslateError("%s: TP and LT tests have different shapes" % W)
+        if disp is not None:
+            raise TranslateError("%s: two TP/LT dispatches" % W)
+        disp = dict(tp_tag=a[0], lt_tag=b[0], suffix=a[1], rstrip=a[2], tok=a_tok)
     if disp is None:
-        raise TranslateError("_get_ibench_output: TP/LT dispatch not found")
+        raise TranslateError("%s: TP/LT dispatch not found" % W)
     disp.update(skip=skip, colon=colon, dash=dash, under=under, nkey=nkey)
     return disp
 
 
 # --------------------------------------------------------------------------- _get_asmbench_output
-def _asmbench(tree):
-    fn = find_func(tree, "_get_asmbench_output")
+def _asmbench(mod):
+    W = "_get_asmbench_output"
+    sc = mod.fn(W)
+    fn = sc.node
+    DATA = _param(sc, 0, W)
     loop = [n for n in fn.body if isinstance(n, ast.For)]
-    if len(loop) != 1 or _call_name(loop[0].iter) != "range" or len(loop[0].iter.args) != 3:
-        raise TranslateError("_get_asmbench_output: for i in range(0, len, step) not found")
-    if _const(loop[0].iter.args[0], int) != 0:
-        raise TranslateError("_get_asmbench_output: range does not start at 0")
-    step = _const(loop[0].iter.args[2], int)
-    iff = loop[0].body[0]
-    if not isinstance(iff, ast.If) or not any(isinstance(s, ast.Break) for s in iff.body):
-        raise TranslateError("_get_asmbench_output: malformed-block test not found")
+    it = sc.deref(loop[0].iter) if len(loop) == 1 else None
+    if it is None or _call_name(it) != "range" or not isinstance(it.func, ast.Name) or len(it.args) != 3 \
+            or it.keywords or not _is_name(loop[0].target):
+        raise TranslateError("%s: for i in range(0, len, step) not found" % W)
+    I = loop[0].target.id
+    if sc.ev_int(it.args[0], W) != 0:
+        raise TranslateError("%s: range does not start at 0" % W)
+    stop = sc.deref(it.args[1])
+    if not (_call_name(stop) == "len" and len(stop.args) == 1 and _is_name(stop.args[0], DATA)):
+        raise TranslateError("%s: range does not end at len(input_data)" % W)
+    step = sc.ev_int(it.args[2], W + ": step")
+    if step < 1:
+        raise TranslateError("%s: step %d" % (W, step))
+    dec = U.split_if_else(loop[0].body)
+    if dec is None:
+        raise TranslateError("%s: malformed-block test not found" % W)
+    test, then, other = dec
+    pol = True
+    if any(isinstance(s, ast.Break) for s in other) and not any(isinstance(s, ast.Break) for s in then):
+        then, other, pol = other, then, False       # `if not malformed: <entry> else: <complain>; break`
+    if not any(isinstance(s, ast.Break) for s in then) or any(isinstance(s, ast.Break) for s in other):
+        raise TranslateError("%s: malformed-block test not found" % W)
+
+    def index_off(s):
+        """i + k -> k ; k + i -> k ; i -> 0"""
+        s = sc.deref(s)
+        if _is_name(s, I):
+            return 0
+        if isinstance(s, ast.BinOp) and isinstance(s.op, ast.Add):
+            l, r = s.left, s.right
+            if _is_name(r, I) and not _is_name(l, I):
+                l, r = r, l
+            if _is_name(l, I):
+                return _nat(sc, r, W + ": line offset")
+        return None
 
     def offset(sub):
         """input_data[i + k] -> k ; input_data[i] -> 0"""
-        if not (isinstance(sub, ast.Subscript) and _is_name(sub.value, "input_data")):
+        sub = sc.deref(sub)
+        if not (isinstance(sub, ast.Subscript) and _is_name(sub.value, DATA)) or isinstance(sub.slice, ast.Slice):
             return None
-        s = sub.slice
-        if _is_name(s, "i"):
-            return 0
-        if isinstance(s, ast.BinOp) and isinstance(s.op, ast.Add) and _is_name(s.left, "i"):
-            return _const(s.right, int)
-        return None
+        return index_off(sub.slice)
 
     def blank_test(t):
         # input_data[i + k].strip() != ""
-        if isinstance(t, ast.Compare) and len(t.ops) == 1 and isinstance(t.ops[0], ast.NotEq) \
-                and _call_name(t.left) == "strip" and _const(t.comparators[0], str) == "":
-            return offset(t.left.func.value)
+        at = U.atoms(t, True)
+        if len(at) != 1:
+            return None
+        a, pol = at[0]
+        if isinstance(a, ast.Compare) and len(a.ops) == 1 and isinstance(a.ops[0], ast.Eq) and pol is False:
+            l, r = a.left, a.comparators[0]
+            if _call_name(sc.deref(r)) == "strip":
+                l, r = r, l
+            l = sc.deref(l)
+            if _call_name(l) == "strip" and isinstance(l.func, ast.Attribute) and not l.args \
+                    and sc.try_ev(r) == (True, ""):
+                return offset(l.func.value)
         return None
 
     guard, blank = False, None
-    t = iff.test
-    if isinstance(t, ast.BoolOp) and isinstance(t.op, ast.Or) and len(t.values) == 2:
-        g, t2 = t.values
+    ds = _disjuncts(test, pol)
+    if len(ds) == 2:
+        g, t2 = ds
         blank = blank_test(t2)
-        # i + k >= len(input_data)
-        if isinstance(g, ast.Compare) and len(g.ops) == 1 and isinstance(g.ops[0], ast.GtE) \
-                and isinstance(g.left, ast.BinOp) and isinstance(g.left.op, ast.Add) and _is_name(g.left.left, "i") \
-                and _call_name(g.comparators[0]) == "len" and blank is not None \
-                and _const(g.left.right, int) == blank:
-            guard = True
-        else:
-            raise TranslateError("_get_asmbench_output: unknown guard in the malformed-block test")
-    else:
-        blank = blank_test(t)
+        # i + k >= len(input_data)   (the guard must come first: it protects the subscript)
+        ok = False
+        if isinstance(g, ast.Compare) and len(g.ops) == 1 and type(g.ops[0]) in MIRROR and blank is not None:
+            l, r, op = g.left, g.comparators[0], type(g.ops[0])
+            if _call_name(sc.deref(l)) == "len":
+                l, r, op = r, l, MIRROR[op]
+            rr = sc.deref(r)
+            if op is ast.GtE and _call_name(rr) == "len" and len(rr.args) == 1 and _is_name(rr.args[0], DATA) \
+                    and index_off(l) == blank:
+                ok = True
+        if not ok:
+            raise TranslateError("%s: unknown guard in the malformed-block test" % W)
+        guard = True
+    elif len(ds) == 1:
+        blank = blank_test(ds[0])
     if blank is None:
-        raise TranslateError("_get_asmbench_output: blank-line test not found")
+        raise TranslateError("%s: blank-line test not found" % W)
     offs = {}
-    name_off = None
-    for n in ast.walk(ast.Module(body=iff.orelse, type_ignores=[])):
-        if isinstance(n, ast.keyword) and n.arg in ("throughput", "latency") and _call_name(n.value) == "_validate_measurement":
-            tok = n.value.args[0]
-            if not (_call_name(tok) == "float" and isinstance(tok.args[0], ast.Subscript)
-                    and _call_name(tok.args[0].value) == "split" and not tok.args[0].value.args):
-                raise TranslateError("_get_asmbench_output: measurement is not float(line.split()[k])")
-            o = offset(tok.args[0].value.func.value)
-            mode = _const(n.value.args[1], str)
-            if o is None or mode != {"throughput": "tp", "latency": "lt"}[n.arg]:
-                raise TranslateError("_get_asmbench_output: measurement line / mode not recognised")
-            offs[n.arg] = (o, _const(tok.args[0].slice, int))
-        if isinstance(n, ast.Assign) and _is_name(n.targets[0], "i_form"):
-            if _call_name(n.value) == "strip":
-                name_off = offset(n.value.func.value)
-    if set(offs) != {"throughput", "latency"} or name_off is None:
-        raise TranslateError("_get_asmbench_output: entry construction not found")
+    names = []
+    for n in ast.walk(ast.Module(body=list(other), type_ignores=[])):
+        if isinstance(n, ast.keyword) and n.arg in ("throughput", "latency"):
+            v = sc.deref(n.value)
+            if _call_name(v) != "_validate_measurement":
+                continue
+            o, tok, mode = _measurement(sc, v, offset, W)
+            if mode != {"throughput": "tp", "latency": "lt"}[n.arg]:
+                raise TranslateError("%s: measurement line / mode not recognised" % W)
+            if n.arg in offs:
+                raise TranslateError("%s: %s given twice" % (W, n.arg))
+            offs[n.arg] = (o, tok)
+        if isinstance(n, ast.Assign) and len(n.targets) == 1 and _is_name(n.targets[0]):
+            v = n.value
+            if _call_name(v) == "strip" and isinstance(v.func, ast.Attribute) and not v.args:
+                o = offset(v.func.value)
+                if o is not None:
+                    names.append(o)
+    if set(offs) != {"throughput", "latency"} or len(names) != 1:
+        raise TranslateError("%s: entry construction not found" % W)
     if offs["throughput"][1] != offs["latency"][1]:
-        raise TranslateError("_get_asmbench_output: token indices differ")
-    return dict(step=step, blank=blank, guard=guard, name=name_off, lat=offs["latency"][0],
+        raise TranslateError("%s: token indices differ" % W)
+    return dict(step=step, blank=blank, guard=guard, name=names[0], lat=offs["latency"][0],
                 tp=offs["throughput"][0], tok=offs["latency"][1])
 
 
 # --------------------------------------------------------------------------- operand decoders
-def _val(n):
+def _lit(v):
+    if v is None:
+        return "(.lit .none)"
+    if isinstance(v, bool):
+        return "(.lit (.b %s))" % ("true" if v else "false")
+    if isinstance(v, int):
+        if v < 0:
+            raise TranslateError("negative literal")
+        return "(.lit (.n %d))" % v
+    if isinstance(v, str):
+        return "(.lit (.s %s))" % txt(v)
+    raise TranslateError("unsupported literal %r" % (v,))
+
+
+def _has_test(sc, t, P):
+    """`"c" in operand` -> ("c", True);  `"c" not in operand` -> ("c", False)"""
+    at = U.atoms(t, True)
+    if len(at) == 1:
+        a, pol = at[0]
+        if isinstance(a, ast.Compare) and len(a.ops) == 1 and isinstance(a.ops[0], ast.In) and _is_name(a.comparators[0], P):
+            ok, s = sc.try_ev(a.left)
+            if ok and isinstance(s, str):
+                return s, pol
+    return None
+
+
+def _const_slice(sc, n, P):
+    """`operand[a:b]` with constant natural bounds -> (a, b), else None"""
+    if isinstance(n, ast.Subscript) and isinstance(n.slice, ast.Slice) and _is_name(n.value, P) \
+            and n.slice.lower is not None and n.slice.upper is not None \
+            and (n.slice.step is None or sc.try_ev(n.slice.step) in ((True, 1), (True, None))):
+        return _nat(sc, n.slice.lower, "slice"), _nat(sc, n.slice.upper, "slice")
+    return None
+
+
+def _val(sc, n, P):
     """Lean term (constructor of Import.VExpr) for a dict value expression."""
-    if isinstance(n, ast.Constant):
-        v = n.value
-        if v is None:
-            return "(.lit .none)"
-        if isinstance(v, bool):
-            return "(.lit (.b %s))" % ("true" if v else "false")
-        if isinstance(v, int):
-            if v < 0:
-                raise TranslateError("negative literal")
-            return "(.lit (.n %d))" % v
-        if isinstance(v, str):
-            return "(.lit (.s %s))" % txt(v)
-        raise TranslateError("unsupported literal %r" % (v,))
-    if _is_name(n, "operand"):
+    ok, v = sc.try_ev(n)
+    if ok:
+        return _lit(v)
+    n = sc.deref(n)
+    if _is_name(n, P):
         return ".operand"
-    if isinstance(n, ast.BinOp) and isinstance(n.op, ast.Add) and _is_name(n.left, "operand") \
-            and isinstance(n.right, ast.Constant) and isinstance(n.right.value, str):
-        return "(.operandPlus %s)" % txt(n.right.value)
     if isinstance(n, ast.IfExp):
-        t = n.test
-        # "c" in operand
-        if isinstance(t, ast.Compare) and len(t.ops) == 1 and isinstance(t.ops[0], ast.In) \
-                and isinstance(t.left, ast.Constant) and isinstance(t.left.value, str) and _is_name(t.comparators[0], "operand"):
-            return "(.ifHas %s %s %s)" % (txt(t.left.value), _val(n.body), _val(n.orelse))
+        h = _has_test(sc, n.test, P)
+        if h is not None:
+            a, b = (n.body, n.orelse) if h[1] else (n.orelse, n.body)
+            return "(.ifHas %s %s %s)" % (txt(h[0]), _val(sc, a, P), _val(sc, b, P))
         # operand[a:b] if operand[a:b] != "" else "d"
-        if isinstance(t, ast.Compare) and len(t.ops) == 1 and isinstance(t.ops[0], ast.NotEq) \
-                and isinstance(t.left, ast.Subscript) and _const(t.comparators[0], str) == "" \
-                and ast.dump(t.left) == ast.dump(n.body) and isinstance(n.orelse, ast.Constant):
-            sl = t.left.slice
-            if isinstance(sl, ast.Slice) and sl.step is None and _is_name(t.left.value, "operand"):
-                return "(.sliceOr %d %d %s)" % (_const(sl.lower, int), _const(sl.upper, int), txt(_const(n.orelse, str)))
+        at = U.atoms(n.test, True)
+        if len(at) == 1 and isinstance(at[0][0], ast.Compare) and isinstance(at[0][0].ops[0], ast.Eq):
+            c, pol = at[0]
+            l, r = c.left, c.comparators[0]
+            if isinstance(sc.deref(r), ast.Subscript):
+                l, r = r, l
+            l = sc.deref(l)
+            yes, no = (n.body, n.orelse) if pol else (n.orelse, n.body)     # `yes`: the slice is ""
+            sl = _const_slice(sc, l, P)
+            if sl is not None and sc.try_ev(r) == (True, "") and _const_slice(sc, sc.deref(no), P) == sl:
+                return "(.sliceOr %d %d %s)" % (sl[0], sl[1], txt(sc.ev_str(yes, "slice default")))
+    h = _has_test(sc, n, P)
+    if h is not None:        # the bare test is the bool `True if c in operand else False`
+        return "(.ifHas %s %s %s)" % (txt(h[0]), _lit(h[1]), _lit(not h[1]))
+    try:
+        parts = U.template_parts(n, sc)
+    except U.NotConst:
+        parts = None
+    if parts and len(parts) == 2 and parts[0][0] == "expr" and _is_name(parts[0][1], P) and parts[1][0] == "lit":
+        return "(.operandPlus %s)" % txt(parts[1][1])
     raise TranslateError("operand decoder: unsupported value expression at line %s" % getattr(n, "lineno", "?"))
 
 
-def _test(t):
-    if isinstance(t, ast.Compare) and len(t.ops) == 1 and _is_name(t.left, "operand") \
-            and isinstance(t.comparators[0], ast.Constant) and isinstance(t.comparators[0].value, str):
-        if isinstance(t.ops[0], ast.Eq):
-            return "(.eq %s)" % txt(t.comparators[0].value)
-        if isinstance(t.ops[0], ast.In):
-            return "(.inStr %s)" % txt(t.comparators[0].value)
-    if _call_name(t) == "startswith" and _is_name(t.func.value, "operand") and len(t.args) == 1:
-        return "(.starts %s)" % txt(_const(t.args[0], str))
+def _test(sc, t, P):
+    if isinstance(t, ast.Compare) and len(t.ops) == 1:
+        l, r, op = t.left, t.comparators[0], t.ops[0]
+        if isinstance(op, ast.Eq) and _is_name(r, P) and not _is_name(l, P):
+            l, r = r, l
+        if _is_name(l, P):
+            ok, s = sc.try_ev(r)
+            if ok and isinstance(s, str):
+                if isinstance(op, ast.Eq):
+                    return "(.eq %s)" % txt(s)
+                if isinstance(op, ast.In):
+                    return "(.inStr %s)" % txt(s)
+    if _call_name(t) == "startswith" and isinstance(t.func, ast.Attribute) and _is_name(t.func.value, P) \
+            and len(t.args) == 1 and not t.keywords:
+        return "(.starts %s)" % txt(sc.ev_str(t.args[0], "startswith"))
     raise TranslateError("operand decoder: unsupported test at line %s" % getattr(t, "lineno", "?"))
 
 
-def _decoder(tree, name):
-    fn = find_func(tree, name)
+def _decoder(mod, name):
+    sc = mod.fn(name)
+    fn = sc.node
+    P = _param(sc, 0, name)
     stmts = [s for s in fn.body if not (isinstance(s, ast.Expr) and isinstance(s.value, ast.Constant))]
-    if len(stmts) != 1 or not isinstance(stmts[0], ast.If):
-        raise TranslateError("%s: body is not one if/elif chain" % name)
     rules = []
-    node = stmts[0]
     while True:
-        if len(node.body) != 1 or not isinstance(node.body[0], ast.Return) or not isinstance(node.body[0].value, ast.Dict):
-            raise TranslateError("%s: branch does not return a dict literal (line %d)" % (name, node.lineno))
-        d = node.body[0].value
-        fields = []
-        for k, v in zip(d.keys, d.values):
-            fields.append("(%s, %s)" % (txt(_const(k, str)), _val(v)))
-        rules.append("  (%s, [%s])" % (_test(node.test), ", ".join(fields)))
-        if len(node.orelse) == 1 and isinstance(node.orelse[0], ast.If):
-            node = node.orelse[0]
-            continue
-        if len(node.orelse) == 1 and isinstance(node.orelse[0], ast.Raise):
+        # hoisted dicts (`d = {...}` bound once, returned in a branch) are plain assignments: skip them here
+        while stmts and isinstance(stmts[0], ast.Assign) and len(stmts[0].targets) == 1 \
+                and _is_name(stmts[0].targets[0]) and isinstance(stmts[0].value, ast.Dict):
+            stmts = stmts[1:]
+        if not stmts:
+            raise TranslateError("%s: chain does not end in `else: raise`" % name)
+        node = stmts[0]
+        if isinstance(node, ast.Raise):
+            if len(stmts) != 1:
+                raise TranslateError("%s: statements after the final raise" % name)
             break
-        raise TranslateError("%s: chain does not end in `else: raise`" % name)
+        if not isinstance(node, ast.If):
+            raise TranslateError("%s: body is not one if/elif chain" % name)
+        t, pol = U.strip_not(node.test)
+        if not pol:                  # `if not c: <rest> else: return {...}`
+            if not node.orelse:
+                raise TranslateError("%s: negated test without else (line %d)" % (name, node.lineno))
+            node = ast.copy_location(ast.If(test=t, body=node.orelse, orelse=node.body), node)
+        d = sc.deref(node.body[0].value) if len(node.body) == 1 and isinstance(node.body[0], ast.Return) \
+            and node.body[0].value is not None else None
+        if not isinstance(d, ast.Dict):
+            raise TranslateError("%s: branch does not return a dict literal (line %d)" % (name, node.lineno))
+        fields = []
+        seen = set()
+        for k, v in zip(d.keys, d.values):
+            if k is None:
+                raise TranslateError("%s: ** in a dict literal (line %d)" % (name, node.lineno))
+            key = sc.ev_str(k, name + ": dict key")
+            if key in seen:
+                raise TranslateError("%s: duplicate key %r" % (name, key))
+            seen.add(key)
+            fields.append("(%s, %s)" % (txt(key), _val(sc, v, P)))
+        rules.append("  (%s, [%s])" % (_test(sc, node.test, P), ", ".join(fields)))
+        if node.orelse:
+            if len(stmts) != 1:
+                raise TranslateError("%s: statements after the if/elif chain" % name)
+            stmts = node.orelse
+        else:
+            stmts = stmts[1:]      # the branch returned: what follows is the else part
     return rules
 
 
-def _isa_dispatch(tree):
-    fn = find_func(tree, "_create_db_operand")
+def _isa_dispatch(mod):
+    sc = mod.fn("_create_db_operand")
+    ISA = _param(sc, 1, "_create_db_operand")
     out = {}
-    for n in ast.walk(fn):
-        if isinstance(n, ast.If) and isinstance(n.test, ast.Compare) and _is_name(n.test.left, "isa") \
-                and isinstance(n.test.ops[0], ast.Eq) and isinstance(n.body[0], ast.Return):
-            out[_const(n.test.comparators[0], str)] = _call_name(n.body[0].value)
+    for n in ast.walk(sc.node):
+        if isinstance(n, ast.If):
+            v = _eq_const(sc, n.test, ISA)
+            if v is not None and isinstance(n.body[0], ast.Return):
+                out[v] = _call_name(sc.deref(n.body[0].value))
     if out != {"aarch64": "_create_db_operand_aarch64", "x86": "_create_db_operand_x86"}:
         raise TranslateError("_create_db_operand: isa dispatch changed: %r" % out)
 
 
-@generator("ImportConsts", [SRC])
+@generator("ImportConsts", [SRC] + SELF)
 def gen_importconsts():
-    tree = parse(SRC)
-    v = _validate(tree)
-    ib = _ibench(tree)
-    ab = _asmbench(tree)
-    _isa_dispatch(tree)
-    x86 = _decoder(tree, "_create_db_operand_x86")
-    a64 = _decoder(tree, "_create_db_operand_aarch64")
+    U.reset_cache()
+    mod = U.mod_scope(SRC)
+    v = _validate(mod)
+    ib = _ibench(mod)
+    ab = _asmbench(mod)
+    _isa_dispatch(mod)
+    x86 = _decoder(mod, "_create_db_operand_x86")
+    a64 = _decoder(mod, "_create_db_operand_aarch64")
     o = [HEADER, "import OsacaVerif.Model.ImportTypes", "namespace OsacaVerif.Gen.Import", "open OsacaVerif.Import\n"]
     o.append("/-! `_validate_measurement` -/")
     o.append("/-- `math.floor(m) * %s >= m` -/\ndef ltHi : Rat := %s" % (v["lt_hi"], rat(v["lt_hi"])))
